@@ -262,7 +262,7 @@ theorem step_lay_table {s s' : State} {l a : Nat} {ca : Cont}
             ?_, rfl, rfl, hs⟩
           unfold State.setLay State.lay
           simp only
-          rw [List.getElem?_set_self hc.1.1]; rfl
+          rw [List.getElem?_set_self hc.1.1.1]; rfl
 
 /-- `M(layout)` / `m = layout`: the matrix shares exactly the layout's index arrays, its data array is fresh -/
 theorem step_mlay_table {s s' : State} {a l kind dt : Nat} {fill : Int} {L : Layout}
